@@ -35,56 +35,161 @@ type tr struct {
 	gen    bool // function is generic in T
 	copies int
 	fn     string
-	result string          // "res" = (T, error); "bool"; or an integer type
+	result string          // "res" = (T, error); "bool"; an integer type; "tuple"
+	tuple  []ty            // component types of a "tuple" result
 	calls  map[string]bool // translated functions this one calls
+	tparam string          // name of the function's type parameter ("" if not generic)
 	errVar map[string]string // error variables of `v, err := F(…)` inside the arm of the callee's answer: the Res constructor
 }
 
 // sig is the signature of a top-level function of the file (calls between translated functions).
 type sig struct {
 	generic bool
-	params  []ty
-	result  string
+	params  []ty   // "T" = the callee's type parameter
+	result  string // "res" = (int, error); "bool"; an integer type or "T"; "tuple"; "error"; "" = unsupported
+	resTy   ty     // value type of a "res" function ("T" or concrete)
+	tuple   []ty   // component types of a "tuple" function
 }
 
 var sigs = map[string]sig{}
+
+// package-level constants: name -> (Lean text, type; "lit" for untyped constants)
+type constDef struct {
+	text string
+	k    ty
+}
+
+var pkgConsts = map[string]constDef{}
+
+// errHelper is a top-level function whose only result is an error and whose body is one `return <error expr>`.
+type errHelperDef struct {
+	res  string   // "overflow" | "divzero"
+	toks []string // postfix rendering of the returned expression
+}
+
+var errHelpers = map[string]errHelperDef{}
 
 // Go's math constants that bound the integer types
 var mathConsts = map[string]string{
 	"MaxInt8": "127", "MinInt8": "-128", "MaxUint8": "255", "MaxInt16": "32767", "MinInt16": "-32768", "MaxUint16": "65535",
 	"MaxInt32": "2147483647", "MinInt32": "-2147483648", "MaxUint32": "4294967295",
 	"MaxInt64": "9223372036854775807", "MinInt64": "-9223372036854775808", "MaxUint64": "18446744073709551615",
+	"MaxInt": "9223372036854775807", "MinInt": "-9223372036854775808", "MaxUint": "18446744073709551615",
 }
 
-// callText renders a call of a translated function (arguments are translated; the callee's T is the caller's T).
+// calleeOf splits `f(…)` / `f[X](…)` into the function name and the explicit type argument (nil if none).
+func calleeOf(e *ast.CallExpr) (string, ast.Expr, bool) {
+	switch f := e.Fun.(type) {
+	case *ast.Ident:
+		return f.Name, nil, true
+	case *ast.IndexExpr:
+		if id, ok := f.X.(*ast.Ident); ok {
+			return id.Name, f.Index, true
+		}
+	}
+
+	return "", nil, false
+}
+
+// tyName resolves a type expression: the function's type parameter becomes "T".
+func (t *tr) tyName(e ast.Expr) (ty, bool) {
+	id, ok := e.(*ast.Ident)
+	if !ok {
+		return "", false
+	}
+	if t.tparam != "" && id.Name == t.tparam {
+		return "T", true
+	}
+	if id.Name == "bool" || (isIntTy(ty(id.Name)) && id.Name != "T") {
+		return ty(id.Name), true
+	}
+
+	return "", false
+}
+
+// inst replaces the callee's "T" by the type argument of the call.
+func inst(k, targ ty) ty {
+	if k == "T" {
+		return targ
+	}
+
+	return k
+}
+
+// callText renders a call of a translated function.  The callee's type argument is the explicit one (`f[T](…)`,
+// `f[int64](…)`) or is inferred from the first argument passed for a parameter of type T.
 func (t *tr) callText(e *ast.CallExpr) (string, sig, bool) {
-	id, ok := e.Fun.(*ast.Ident)
+	name, targExpr, ok := calleeOf(e)
 	if !ok {
 		return "", sig{}, false
 	}
-	sg, ok := sigs[id.Name]
+	if _, shadowed := t.env[name]; shadowed {
+		return "", sig{}, false
+	}
+	sg, ok := sigs[name]
 	if !ok || len(e.Args) != len(sg.params) {
 		return "", sig{}, false
 	}
-	parts := []string{id.Name}
-	if sg.generic {
-		if !t.gen {
-			t.fail(e, "call of a generic function from a non-generic one (type argument unknown)")
-		}
-		parts = append(parts, "T")
-	}
-	for i, a := range e.Args {
+	var args []string
+	var kinds []ty
+	for _, a := range e.Args {
 		x, k := t.expr(a)
-		want := sg.params[i]
-		if k != "lit" && k != want {
-			t.fail(a, fmt.Sprintf("argument type %s, parameter type %s", k, want))
-		}
-		parts = append(parts, x)
+		args = append(args, x)
+		kinds = append(kinds, k)
 	}
+	parts := []string{leanFn(name)}
+	targ := ty("")
+	if sg.generic {
+		if targExpr != nil {
+			k, ok := t.tyName(targExpr)
+			if !ok || !isIntTy(k) {
+				t.fail(e, "unsupported type argument")
+			}
+			targ = k
+		} else {
+			for i, k := range kinds {
+				if sg.params[i] == "T" && k != "lit" {
+					targ = k
+
+					break
+				}
+			}
+			if targ == "" {
+				t.fail(e, "type argument of a generic call cannot be inferred")
+				targ = "T"
+			}
+		}
+		if targ == "T" && !t.gen {
+			t.fail(e, "type argument T outside a generic function")
+		}
+		parts = append(parts, leanTy(targ))
+	} else if targExpr != nil {
+		t.fail(e, "type argument for a non-generic function")
+	}
+	for i, k := range kinds {
+		want := inst(sg.params[i], targ)
+		if k != "lit" && k != want {
+			t.fail(e.Args[i], fmt.Sprintf("argument type %s, parameter type %s", k, want))
+		}
+	}
+	parts = append(parts, args...)
 	if t.calls == nil {
 		t.calls = map[string]bool{}
 	}
-	t.calls[id.Name] = true
+	t.calls[name] = true
+	// the signature as seen by this call
+	sg.resTy = inst(sg.resTy, targ)
+	if sg.result == "T" {
+		sg.result = string(targ)
+	}
+	tup := make([]ty, len(sg.tuple))
+	for i, k := range sg.tuple {
+		tup[i] = inst(k, targ)
+	}
+	sg.tuple = tup
+	if len(parts) == 1 {
+		return leanFn(name), sg, true
+	}
 
 	return "(" + strings.Join(parts, " ") + ")", sg, true
 }
@@ -316,6 +421,9 @@ func (t *tr) expr(e ast.Expr) (string, ty) {
 		if k, ok := t.env[e.Name]; ok {
 			return leanName(e.Name), k
 		}
+		if c, ok := pkgConsts[e.Name]; ok {
+			return c.text, c.k
+		}
 		t.fail(e, "unknown identifier "+e.Name)
 
 		return "?", "lit"
@@ -420,32 +528,76 @@ func (t *tr) expr(e ast.Expr) (string, ty) {
 				return "(" + v + " : Int)", "lit"
 			}
 		}
+		if pk, ok := e.X.(*ast.Ident); ok && pk.Name == "bits" && e.Sel.Name == "UintSize" {
+			return "(64 : Int)", "lit"
+		}
 	case *ast.CallExpr:
 		// calls of other translated functions with a single result
 		if txt, sg, ok := t.callText(e); ok {
-			if sg.result == "res" {
+			switch sg.result {
+			case "res":
 				t.fail(e, "call of a (T, error) function inside an expression")
+			case "tuple":
+				return txt, "tuple"
+			case "error", "":
+				t.fail(e, "call of a function with unsupported results inside an expression")
 			}
 
 			return txt, ty(sg.result)
 		}
 		// conversions
-		if id, ok := e.Fun.(*ast.Ident); ok && len(e.Args) == 1 {
-			to := ty(id.Name)
-			if isIntTy(to) {
-				s, _ := t.expr(e.Args[0])
+		if len(e.Args) == 1 {
+			if to, ok := t.tyName(e.Fun); ok && isIntTy(to) {
+				if id := e.Fun.(*ast.Ident); t.env[id.Name] == "" {
+					s, _ := t.expr(e.Args[0])
 
-				return fmt.Sprintf("(%s.wrap %s)", leanTy(to), s), to
+					return fmt.Sprintf("(%s.wrap %s)", leanTy(to), s), to
+				}
+			}
+		}
+		// builtins min / max (Go 1.21) on integers of one type
+		if id, ok := e.Fun.(*ast.Ident); ok && (id.Name == "min" || id.Name == "max") && len(e.Args) >= 2 && t.env[id.Name] == "" {
+			if _, isFn := sigs[id.Name]; !isFn {
+				acc, k := t.expr(e.Args[0])
+				for _, a := range e.Args[1:] {
+					b, kb := t.expr(a)
+					if k != "lit" && kb != "lit" && k != kb {
+						t.fail(e, fmt.Sprintf("operand types differ: %s vs %s", k, kb))
+					}
+					k = unify(k, kb)
+					acc = fmt.Sprintf("(Hive.GoInt.i%s %s %s)", id.Name, acc, b)
+				}
+
+				return acc, k
 			}
 		}
 		if sel, ok := e.Fun.(*ast.SelectorExpr); ok {
 			if pk, ok := sel.X.(*ast.Ident); ok {
 				name := pk.Name + "." + sel.Sel.Name
+				if pk.Name == "bits" && len(e.Args) == 1 {
+					// bits.Len* / LeadingZeros* / TrailingZeros* of an unsigned operand; the result is an int
+					for _, w := range []struct {
+						suffix string
+						bits   int
+						arg    ty
+					}{{"64", 64, "uint64"}, {"32", 32, "uint32"}, {"16", 16, "uint16"}, {"8", 8, "uint8"}, {"", 64, "uint"}} {
+						for fn, lean := range map[string]string{"Len": "Hive.GoInt.bitLen", "LeadingZeros": fmt.Sprintf("Hive.GoInt.leadingZeros %d", w.bits), "TrailingZeros": fmt.Sprintf("Hive.GoInt.trailingZeros %d", w.bits)} {
+							if sel.Sel.Name == fn+w.suffix {
+								a, k := t.expr(e.Args[0])
+								if k != "lit" && k != w.arg {
+									t.fail(e, fmt.Sprintf("argument type %s, parameter type %s", k, w.arg))
+								}
+
+								return fmt.Sprintf("(%s %s)", lean, a), "int"
+							}
+						}
+					}
+				}
 				switch name {
-				case "unsafe.Sizeof": // of a value of the type parameter: the width in bytes (an untyped constant in Go)
+				case "unsafe.Sizeof": // of a value of the type parameter or of an integer type: the width in bytes, a uintptr
 					if len(e.Args) == 1 {
-						if _, k := t.expr(e.Args[0]); k == "T" {
-							return "((T.bits : Int) / 8)", "lit"
+						if _, k := t.expr(e.Args[0]); k != "lit" && isIntTy(k) {
+							return fmt.Sprintf("((%s.bits : Int) / 8)", leanTy(k)), "uintptr"
 						}
 					}
 				case "lo.Return1":
@@ -456,16 +608,28 @@ func (t *tr) expr(e ast.Expr) (string, ty) {
 						}
 					}
 				case "bits.Mul64":
-					a, _ := t.expr(e.Args[0])
-					b, _ := t.expr(e.Args[1])
+					if len(e.Args) == 2 {
+						a, _ := t.expr(e.Args[0])
+						b, _ := t.expr(e.Args[1])
 
-					return fmt.Sprintf("(mul64 %s %s)", a, b), "pair"
+						return fmt.Sprintf("(mul64 %s %s)", a, b), "pair"
+					}
+				case "bits.Add64", "bits.Sub64":
+					if len(e.Args) == 3 {
+						a, _ := t.expr(e.Args[0])
+						b, _ := t.expr(e.Args[1])
+						c, _ := t.expr(e.Args[2])
+
+						return fmt.Sprintf("(%s %s %s %s)", map[string]string{"bits.Add64": "Hive.GoInt.add64", "bits.Sub64": "Hive.GoInt.sub64"}[name], a, b, c), "pair"
+					}
 				case "bits.Div64":
-					a, _ := t.expr(e.Args[0])
-					b, _ := t.expr(e.Args[1])
-					c, _ := t.expr(e.Args[2])
+					if len(e.Args) == 3 {
+						a, _ := t.expr(e.Args[0])
+						b, _ := t.expr(e.Args[1])
+						c, _ := t.expr(e.Args[2])
 
-					return fmt.Sprintf("(div64 %s %s %s)", a, b, c), "pair?"
+						return fmt.Sprintf("(div64 %s %s %s)", a, b, c), "pair?"
+					}
 				}
 			}
 		}
@@ -477,11 +641,28 @@ func (t *tr) expr(e ast.Expr) (string, ty) {
 
 func leanName(s string) string {
 	switch s {
-	case "lo", "hi", "val", "div", "result", "shift":
+	case "lo", "hi", "val", "div", "result", "shift",
+		// Lean keywords and names the generated module relies on
+		"at", "by", "do", "end", "from", "fun", "have", "in", "let", "show", "then", "with", "open", "where", "match", "calc", "using", "extends",
+		"def", "theorem", "instance", "structure", "class", "inductive", "namespace", "section", "variable", "universe", "mutual", "private",
+		"protected", "partial", "unsafe", "macro", "syntax", "notation", "deriving", "suffices", "nomatch", "nofun", "Type", "Prop", "Sort", "T",
+		"Res", "IntTy", "decide", "Int", "Bool", "true", "false", "mul64", "div64", "id", "fst", "snd", "some", "none", "abs", "not", "and", "or", "xor":
 		return s + "_"
 	}
 
 	return s
+}
+
+// leanFn is the Lean name of a translated top-level function (its Go name unless that would capture a name the
+// generated module uses).
+func leanFn(s string) string {
+	switch s {
+	case "mul64", "div64", "translated", "sentinelDefs", "ierrorsWrappers", "errorSites", "decide", "Res", "IntTy", "Int", "Bool", "not", "and", "or", "xor",
+		"min", "max", "abs", "id", "exact":
+		return s + "_"
+	}
+
+	return leanName(s)
 }
 
 func mayReturn(s ast.Stmt) bool {
@@ -531,22 +712,125 @@ func (t *tr) block(stmts []ast.Stmt, depth int, k func(depth int) string) string
 		return ind(depth) + t.ret(s) + "\n"
 	case *ast.DeclStmt:
 		gd, ok := s.Decl.(*ast.GenDecl)
-		if !ok || gd.Tok != token.VAR || len(gd.Specs) != 1 {
+		if !ok || (gd.Tok != token.VAR && gd.Tok != token.CONST) || len(gd.Specs) != 1 {
 			t.fail(s, "unsupported declaration")
 
 			return ""
 		}
 		vs := gd.Specs[0].(*ast.ValueSpec)
-		if len(vs.Names) != 1 || len(vs.Values) != 1 {
+		if len(vs.Names) != 1 || len(vs.Values) > 1 || (vs.Type == nil && len(vs.Values) == 0) {
 			t.fail(s, "unsupported var spec")
 
 			return ""
 		}
-		e, _ := t.expr(vs.Values[0])
-		k := ty(vs.Type.(*ast.Ident).Name)
-		t.env[vs.Names[0].Name] = k
+		var declared ty
+		if vs.Type != nil {
+			var ok bool
+			if declared, ok = t.tyName(vs.Type); !ok {
+				t.fail(s, "unsupported variable type")
 
-		return fmt.Sprintf("%slet %s : Int := %s\n", ind(depth), leanName(vs.Names[0].Name), e) + cont(depth)
+				return ""
+			}
+		}
+		e, ke := "(0 : Int)", ty("lit")
+		if declared == "bool" {
+			e = "false"
+		}
+		if len(vs.Values) == 1 {
+			e, ke = t.expr(vs.Values[0])
+		}
+		switch {
+		case declared != "":
+			if ke != "lit" && ke != declared && len(vs.Values) == 1 {
+				t.fail(s, fmt.Sprintf("initialiser type %s, declared type %s", ke, declared))
+			}
+		case ke == "lit" && gd.Tok == token.VAR:
+			declared = "int" // `var x = 5`
+		default:
+			declared = ke // untyped constant: exact integer arithmetic
+		}
+		t.env[vs.Names[0].Name] = declared
+		ann := "Int"
+		if declared == "bool" {
+			ann = "Bool"
+		}
+
+		return fmt.Sprintf("%slet %s : %s := %s\n", ind(depth), leanName(vs.Names[0].Name), ann, e) + cont(depth)
+	case *ast.SwitchStmt:
+		// expression switch without fallthrough / break: an if / else-if chain
+		if s.Init != nil {
+			t.fail(s, "switch with an init statement")
+
+			return ""
+		}
+		var chain, last *ast.IfStmt
+		var deflt *ast.BlockStmt
+		for _, c := range s.Body.List {
+			cc := c.(*ast.CaseClause)
+			bad := false
+			ast.Inspect(cc, func(n ast.Node) bool {
+				if b, ok := n.(*ast.BranchStmt); ok && (b.Tok == token.FALLTHROUGH || b.Tok == token.BREAK) {
+					bad = true
+				}
+
+				return true
+			})
+			if bad {
+				t.fail(cc, "fallthrough / break in a switch")
+			}
+			body := &ast.BlockStmt{Lbrace: cc.Colon, List: cc.Body}
+			if cc.List == nil {
+				deflt = body
+
+				continue
+			}
+			var cond ast.Expr
+			for _, v := range cc.List {
+				var one ast.Expr = v
+				if s.Tag != nil {
+					one = &ast.BinaryExpr{X: s.Tag, OpPos: v.Pos(), Op: token.EQL, Y: v}
+				}
+				if cond == nil {
+					cond = one
+				} else {
+					cond = &ast.BinaryExpr{X: cond, OpPos: v.Pos(), Op: token.LOR, Y: one}
+				}
+			}
+			is := &ast.IfStmt{If: cc.Case, Cond: cond, Body: body}
+			if chain == nil {
+				chain = is
+			} else {
+				last.Else = is
+			}
+			last = is
+		}
+		if chain == nil {
+			if deflt == nil {
+				return cont(depth)
+			}
+
+			return t.block(append(append([]ast.Stmt{}, deflt.List...), rest...), depth, k)
+		}
+		if deflt != nil {
+			last.Else = deflt
+		}
+
+		return t.block(append([]ast.Stmt{chain}, rest...), depth, k)
+	case *ast.BlockStmt:
+		// a nested block: its declarations are scoped, which a flattened `let` sequence only respects when nothing is shadowed
+		for _, st := range s.List {
+			if as, ok := st.(*ast.AssignStmt); ok && as.Tok == token.DEFINE {
+				for _, l := range as.Lhs {
+					if id, ok := l.(*ast.Ident); ok {
+						if _, shadows := t.env[id.Name]; shadows {
+							t.fail(st, "nested block shadows "+id.Name)
+						}
+					}
+				}
+			}
+		}
+
+		return t.block(append(append([]ast.Stmt{}, s.List...), rest...), depth, k)
 	case *ast.IncDecStmt:
 		op := token.ADD
 		if s.Tok == token.DEC {
@@ -564,7 +848,7 @@ func (t *tr) block(stmts []ast.Stmt, depth int, k func(depth int) string) string
 			return t.block(append([]ast.Stmt{as}, rest...), depth, k)
 		}
 		if call, ok := s.Rhs[0].(*ast.CallExpr); ok && len(s.Rhs) == 1 && len(s.Lhs) == 2 && s.Tok == token.DEFINE {
-			if id, ok := call.Fun.(*ast.Ident); ok && sigs[id.Name].result == "res" {
+			if cname, _, ok := calleeOf(call); ok && sigs[cname].result == "res" {
 				// v, err := F(...); if err != nil { return …, err }   (the error of the callee is passed on)
 				txt, sg, _ := t.callText(call)
 				v, ev := s.Lhs[0].(*ast.Ident), s.Lhs[1].(*ast.Ident)
@@ -591,11 +875,7 @@ func (t *tr) block(stmts []ast.Stmt, depth int, k func(depth int) string) string
 					return fmt.Sprintf("%s| %s =>\n%s", ind(depth), con, b)
 				}
 				armOv, armDz := arm("Res.overflow"), arm("Res.divzero")
-				rty := ty("T")
-				if !sg.generic {
-					rty = resultInt[id.Name]
-				}
-				t.env[v.Name] = rty
+				t.env[v.Name] = sg.resTy
 				body := t.block(rest[1:], depth+1, k)
 
 				return fmt.Sprintf("%smatch %s with\n%s%s%s| Res.panic => Res.panic\n%s| Res.ok %s =>\n%s",
@@ -603,26 +883,79 @@ func (t *tr) block(stmts []ast.Stmt, depth int, k func(depth int) string) string
 			}
 		}
 		if len(s.Rhs) == 1 && len(s.Lhs) == 2 {
-			// hi, lo := bits.Mul64(...)
-			e, k := t.expr(s.Rhs[0])
-			if k != "pair" {
-				t.fail(s, "two-value assignment from a non-pair")
-			}
-			a, b := s.Lhs[0].(*ast.Ident).Name, s.Lhs[1].(*ast.Ident).Name
-			t.env[a], t.env[b] = "uint64", "uint64"
+			// hi, lo := bits.Mul64(...)   |   v, ok := helper(...)
+			ida, oka := s.Lhs[0].(*ast.Ident)
+			idb, okb := s.Lhs[1].(*ast.Ident)
+			if !oka || !okb {
+				t.fail(s, "unsupported assignment")
 
-			return fmt.Sprintf("%slet %s := %s.1\n%slet %s := %s.2\n", ind(depth), leanName(a), e, ind(depth), leanName(b), e) + cont(depth)
+				return ""
+			}
+			a, b := ida.Name, idb.Name
+			ka, kb := ty("uint64"), ty("uint64")
+			var e string
+			if call, ok := s.Rhs[0].(*ast.CallExpr); ok {
+				if txt, sg, ok := t.callText(call); ok && sg.result == "tuple" && len(sg.tuple) == 2 {
+					e, ka, kb = txt, sg.tuple[0], sg.tuple[1]
+				}
+			}
+			if e == "" {
+				var k ty
+				e, k = t.expr(s.Rhs[0])
+				if k != "pair" {
+					t.fail(s, "two-value assignment from a non-pair")
+				}
+			}
+			if s.Tok != token.DEFINE {
+				for _, p := range []struct {
+					n string
+					k ty
+				}{{a, ka}, {b, kb}} {
+					if old, ok := t.env[p.n]; p.n != "_" && (!ok || old != p.k) {
+						t.fail(s, fmt.Sprintf("assignment changes type %s -> %s", old, p.k))
+					}
+				}
+			}
+			var out string
+			for i, p := range []struct {
+				n string
+				k ty
+			}{{a, ka}, {b, kb}} {
+				if p.n == "_" {
+					continue
+				}
+				t.env[p.n] = p.k
+				ann := "Int"
+				if p.k == "bool" {
+					ann = "Bool"
+				}
+				if ann == "Int" {
+					out += fmt.Sprintf("%slet %s := %s.%d\n", ind(depth), leanName(p.n), e, i+1)
+				} else {
+					out += fmt.Sprintf("%slet %s : %s := %s.%d\n", ind(depth), leanName(p.n), ann, e, i+1)
+				}
+			}
+
+			return out + cont(depth)
 		}
 		if len(s.Lhs) != 1 || len(s.Rhs) != 1 {
 			t.fail(s, "unsupported assignment")
 
 			return ""
 		}
-		id := s.Lhs[0].(*ast.Ident)
+		id, isId := s.Lhs[0].(*ast.Ident)
+		if !isId {
+			t.fail(s, "unsupported assignment target")
+
+			return ""
+		}
 		e, k := t.expr(s.Rhs[0])
+		if k == "tuple" || k == "pair" || k == "pair?" {
+			t.fail(s, "multi-valued expression in a single-value assignment")
+		}
 		if s.Tok == token.DEFINE {
 			if k == "lit" {
-				t.fail(s, "untyped constant definition")
+				k = "int" // `x := 5` declares an int
 			}
 			t.env[id.Name] = k
 		} else if old := t.env[id.Name]; k != "lit" && old != k {
@@ -727,9 +1060,6 @@ var compoundOps = map[token.Token]token.Token{
 	token.AND_NOT_ASSIGN: token.AND_NOT,
 }
 
-// integer result type of the non-generic (T, error) functions
-var resultInt = map[string]ty{}
-
 // isErrCheck recognises `if err != nil { … }` (the body is translated once per error the callee can answer).
 func isErrCheck(s ast.Stmt, errName string) bool {
 	is, ok := s.(*ast.IfStmt)
@@ -808,13 +1138,38 @@ func mentions(e ast.Expr, name string) bool {
 }
 
 func (t *tr) ret(s *ast.ReturnStmt) string {
+	if t.result == "tuple" {
+		if len(s.Results) == 1 {
+			if e, k := t.expr(s.Results[0]); k == "tuple" {
+				return e
+			}
+		}
+		if len(s.Results) != len(t.tuple) {
+			t.fail(s, "wrong number of results")
+
+			return "?"
+		}
+		var parts []string
+		for i, r := range s.Results {
+			e, k := t.expr(r)
+			if k != "lit" && k != t.tuple[i] {
+				t.fail(r, fmt.Sprintf("result type %s, declared %s", k, t.tuple[i]))
+			}
+			parts = append(parts, e)
+		}
+
+		return "(" + strings.Join(parts, ", ") + ")"
+	}
 	if t.result != "res" {
 		if len(s.Results) != 1 {
 			t.fail(s, "return must have one result")
 
 			return "?"
 		}
-		e, _ := t.expr(s.Results[0])
+		e, k := t.expr(s.Results[0])
+		if k != "lit" && string(k) != t.result {
+			t.fail(s, fmt.Sprintf("result type %s, declared %s", k, t.result))
+		}
 
 		return e
 	}
@@ -853,6 +1208,17 @@ func (t *tr) ret(s *ast.ReturnStmt) string {
 	site := func(res string) {
 		sites = append(sites, fmt.Sprintf("  { fn := %s, line := %d, res := %s, toks := [%s] }", leanStr(t.fn), t.fset.Position(s.Pos()).Line, leanStr(res),
 			strings.Join(errToks(t.fset, s.Results[1], nil), ", ")))
+	}
+	// the error is built by a helper of the file: `return 0, overflowError(…)`
+	if call, ok := s.Results[1].(*ast.CallExpr); ok {
+		if name, _, ok := calleeOf(call); ok {
+			if h, ok := errHelpers[name]; ok {
+				sites = append(sites, fmt.Sprintf("  { fn := %s, line := %d, res := %s, toks := [%s] }", leanStr(t.fn), t.fset.Position(s.Pos()).Line, leanStr(h.res),
+					strings.Join(h.toks, ", ")))
+
+				return map[string]string{"overflow": "Res.overflow", "divzero": "Res.divzero"}[h.res]
+			}
+		}
 	}
 	switch {
 	case mentions(s.Results[1], "ErrIntegerOverflow"):
@@ -910,56 +1276,114 @@ func main() {
 			}
 		}
 	}
+	// package-level constants (untyped or of an integer type; no iota)
+	for _, d := range f.Decls {
+		gd, ok := d.(*ast.GenDecl)
+		if !ok || gd.Tok != token.CONST {
+			continue
+		}
+		for _, sp := range gd.Specs {
+			vs := sp.(*ast.ValueSpec)
+			ct := &tr{fset: fset, env: map[string]ty{}, fn: "const"}
+			if len(vs.Values) != len(vs.Names) {
+				ct.fail(vs, "constant without its own value (iota / implicit repetition)")
+			}
+			for i, n := range vs.Names {
+				if i >= len(vs.Values) {
+					break
+				}
+				e, k := ct.expr(vs.Values[i])
+				if vs.Type != nil {
+					dk, ok := ct.tyName(vs.Type)
+					if !ok || !isIntTy(dk) {
+						ct.fail(vs, "unsupported constant type")
+					}
+					if k == "lit" {
+						k = dk
+					}
+				}
+				pkgConsts[n.Name] = constDef{e, k}
+			}
+			allErrs = append(allErrs, ct.errs...)
+		}
+	}
 	// signatures first: functions may call each other in any source order
-	resultKind := func(fd *ast.FuncDecl) string {
-		rs := fd.Type.Results
-		if rs == nil {
-			return ""
+	tparamOf := func(fd *ast.FuncDecl) (string, bool) {
+		if fd.Type.TypeParams == nil {
+			return "", true
 		}
-		var tys []string
-		for _, r := range rs.List {
-			n := len(r.Names)
-			if n == 0 {
-				n = 1
-			}
-			id, ok := r.Type.(*ast.Ident)
-			if !ok || len(r.Names) > 0 {
-				return "" // named results / composite types: unsupported
-			}
-			for i := 0; i < n; i++ {
-				tys = append(tys, id.Name)
-			}
-		}
-		switch {
-		case len(tys) == 2 && isIntTy(ty(tys[0])) && tys[1] == "error":
-			return "res:" + tys[0]
-		case len(tys) == 1 && (tys[0] == "bool" || isIntTy(ty(tys[0]))):
-			return tys[0]
+		l := fd.Type.TypeParams.List
+		if len(l) != 1 || len(l[0].Names) != 1 {
+			return "", false
 		}
 
-		return ""
+		return l[0].Names[0].Name, true
 	}
 	for _, d := range f.Decls {
 		fd, ok := d.(*ast.FuncDecl)
 		if !ok || fd.Recv != nil || fd.Body == nil {
 			continue
 		}
+		tp, _ := tparamOf(fd)
+		rt := &tr{fset: fset, tparam: tp}
 		sg := sig{generic: fd.Type.TypeParams != nil}
 		for _, p := range fd.Type.Params.List {
-			if id, ok := p.Type.(*ast.Ident); ok {
-				for range p.Names {
-					sg.params = append(sg.params, ty(id.Name))
+			k, _ := rt.tyName(p.Type)
+			for range p.Names {
+				sg.params = append(sg.params, k)
+			}
+		}
+		var tys []ty
+		named := false
+		if rs := fd.Type.Results; rs != nil {
+			for _, r := range rs.List {
+				if len(r.Names) > 0 {
+					named = true
+				}
+				k, ok := rt.tyName(r.Type)
+				if id, isId := r.Type.(*ast.Ident); !ok && isId && id.Name == "error" {
+					k = "error"
+				}
+				n := len(r.Names)
+				if n == 0 {
+					n = 1
+				}
+				for i := 0; i < n; i++ {
+					tys = append(tys, k)
 				}
 			}
 		}
-		rk := resultKind(fd)
-		if strings.HasPrefix(rk, "res:") {
-			sg.result = "res"
-			resultInt[fd.Name.Name] = ty(rk[4:])
-		} else {
-			sg.result = rk
+		allVals := len(tys) > 0
+		for _, k := range tys {
+			if !(k == "bool" || isIntTy(k)) {
+				allVals = false
+			}
+		}
+		switch {
+		case named:
+		case len(tys) == 2 && isIntTy(tys[0]) && tys[1] == "error":
+			sg.result, sg.resTy = "res", tys[0]
+		case len(tys) == 1 && tys[0] == "error":
+			sg.result = "error"
+		case len(tys) == 1 && allVals:
+			sg.result = string(tys[0])
+		case len(tys) == 2 && allVals:
+			sg.result, sg.tuple = "tuple", tys
 		}
 		sigs[fd.Name.Name] = sg
+		// error helper: `func f(…) error { return <error expr> }`
+		if sg.result == "error" && len(fd.Body.List) == 1 {
+			if r, ok := fd.Body.List[0].(*ast.ReturnStmt); ok && len(r.Results) == 1 {
+				ov, dz := mentions(r.Results[0], "ErrIntegerOverflow"), mentions(r.Results[0], "ErrIntegerDivisionByZero")
+				if ov != dz {
+					res := "overflow"
+					if dz {
+						res = "divzero"
+					}
+					errHelpers[fd.Name.Name] = errHelperDef{res, errToks(fset, r.Results[0], nil)}
+				}
+			}
+		}
 	}
 	type emitted struct {
 		name, text string
@@ -971,32 +1395,35 @@ func main() {
 		if !ok || fd.Recv != nil || fd.Body == nil {
 			continue
 		}
-		t := &tr{fset: fset, env: map[string]ty{}, fn: fd.Name.Name, result: sigs[fd.Name.Name].result}
-		if t.result == "" {
+		if _, ok := errHelpers[fd.Name.Name]; ok {
+			continue // inlined at its call sites (error sites)
+		}
+		sg := sigs[fd.Name.Name]
+		t := &tr{fset: fset, env: map[string]ty{}, fn: fd.Name.Name, result: sg.result, tuple: sg.tuple}
+		if t.result == "" || t.result == "error" {
 			t.fail(fd, "unsupported result types")
 		}
 		var params []string
 		if fd.Type.TypeParams != nil {
-			if len(fd.Type.TypeParams.List) != 1 || len(fd.Type.TypeParams.List[0].Names) != 1 || fd.Type.TypeParams.List[0].Names[0].Name != "T" {
+			tp, ok := tparamOf(fd)
+			if !ok {
 				t.fail(fd, "unsupported type parameters")
 			}
-			if id, ok := fd.Type.TypeParams.List[0].Type.(*ast.Ident); !ok || id.Name != "Integer" {
-				t.fail(fd, "type parameter is not constrained by Integer")
-			}
+			t.tparam = tp
 			t.gen = true
 			params = append(params, "(T : IntTy)")
 		}
 		for _, p := range fd.Type.Params.List {
-			id, ok := p.Type.(*ast.Ident)
-			if !ok || !(isIntTy(ty(id.Name)) || id.Name == "bool") {
+			k, ok := t.tyName(p.Type)
+			if !ok {
 				t.fail(p, "unsupported parameter type")
 
 				continue
 			}
 			for _, n := range p.Names {
-				t.env[n.Name] = ty(id.Name)
+				t.env[n.Name] = k
 				lt := "Int"
-				if id.Name == "bool" {
+				if k == "bool" {
 					lt = "Bool"
 				}
 				params = append(params, fmt.Sprintf("(%s : %s)", leanName(n.Name), lt))
@@ -1009,14 +1436,21 @@ func main() {
 		})
 		pos := fset.Position(fd.Pos())
 		end := fset.Position(fd.End())
+		lt := func(k ty) string {
+			if k == "bool" {
+				return "Bool"
+			}
+
+			return "Int"
+		}
 		rt := "Res Int"
 		switch {
-		case t.result == "bool":
-			rt = "Bool"
+		case t.result == "tuple":
+			rt = lt(t.tuple[0]) + " × " + lt(t.tuple[1])
 		case t.result != "res":
-			rt = "Int"
+			rt = lt(ty(t.result))
 		}
-		defs = append(defs, emitted{fd.Name.Name, fmt.Sprintf("/-- %s, safe_math.go:%d-%d -/\ndef %s %s : %s :=\n%s\n", fd.Name.Name, pos.Line, end.Line, fd.Name.Name,
+		defs = append(defs, emitted{fd.Name.Name, fmt.Sprintf("/-- %s, safe_math.go:%d-%d -/\ndef %s %s : %s :=\n%s\n", fd.Name.Name, pos.Line, end.Line, leanFn(fd.Name.Name),
 			strings.Join(params, " "), rt, body), t.calls})
 		allErrs = append(allErrs, t.errs...)
 		names = append(names, fd.Name.Name)
